@@ -91,6 +91,23 @@ func init() {
 		Mutant{Name: "x-replace-keeps-old-tail", File: "pkg/db/message/recovery_replace.go", Old: "readRows(ctx, req.KeepThrough+1, 0,", New: "readRows(ctx, req.KeepThrough+1, finalOffset,", Expect: "C09/X1*"},
 	)
 
+	// ---- C22 -----------------------------------------------------------------------------
+	// SENDACK has two historical body layouts; the canonical (encoder) layout is core-first. The
+	// decoder must try the canonical layout first and fall back to the legacy one only when the
+	// canonical parse FAILED — choosing the layout by a content heuristic misdecodes canonical
+	// frames whose sequence bytes happen to look like a string length (seed C22-b).
+	extend("C22", nil, func(c *Ctx) {
+		fn := c.Fn("pkg/protocol/codec.decodeSendackBody")
+		c.Guard("X1-sendack-canonical-first", fn, CallTo{"pkg/protocol/codec.decodeSendackBodyClientMsgNoFirst"},
+			"pkg/protocol/codec.decodeSendackBodyCoreFirst(data, version)#3 != nil")
+		c.Guard("X1-sendack-canonical-first", fn, RetNil{},
+			"pkg/protocol/codec.decodeSendackBodyCoreFirst(data, version)#3 == nil || pkg/protocol/codec.decodeSendackBodyClientMsgNoFirst(data, version)#3 == nil")
+		c.ConfineCalls("X1-sendack-canonical-first", "pkg/protocol/codec.decodeSendackBodyClientMsgNoFirst", 1, "pkg/protocol/codec.decodeSendackBody")
+		c.ConfineCalls("X1-sendack-canonical-first", "pkg/protocol/codec.decodeSendackBodyCoreFirst", 1, "pkg/protocol/codec.decodeSendackBody")
+	},
+		Mutant{Name: "x-sendack-legacy-layout-first", File: "pkg/protocol/codec/sendack.go", Old: "\tif clientMsgNo, messageSeq, reasonCode, err := decodeSendackBodyCoreFirst(data, version); err == nil {\n\t\treturn clientMsgNo, messageSeq, reasonCode, nil\n\t}\n\tclientMsgNo, messageSeq, reasonCode, err := decodeSendackBodyClientMsgNoFirst(data, version)", New: "\tif clientMsgNo, messageSeq, reasonCode, err := decodeSendackBodyClientMsgNoFirst(data, version); err == nil {\n\t\treturn clientMsgNo, messageSeq, reasonCode, nil\n\t}\n\tclientMsgNo, messageSeq, reasonCode, err := decodeSendackBodyCoreFirst(data, version)", Expect: "C22/X1*"},
+	)
+
 	// ---- C04 -----------------------------------------------------------------------------
 	extend("C04", nil, func(c *Ctx) {
 		// X1: the current-term barrier is written only by an authority strictly newer than the
